@@ -62,6 +62,16 @@ func c04Combos() []map[string]string {
 			}
 		}
 	}
+	// values that are unparsable at the URL level (a broken percent escape, a ';' inside the pair), one parameter at a
+	// time and next to a valid one: the request must be refused, not served as if the condition were absent
+	for _, k := range []string{"ifGenerationMatch", "ifGenerationNotMatch", "ifMetagenerationMatch", "ifMetagenerationNotMatch"} {
+		for _, v := range []string{"badesc", "badesc2", "badsemi"} {
+			out = append(out, map[string]string{k: v})
+			if k != "ifGenerationMatch" {
+				out = append(out, map[string]string{k: v, "ifGenerationMatch": "cur"})
+			}
+		}
+	}
 	return out
 }
 
